@@ -329,6 +329,13 @@ def check(run: Run) -> None:
 
     # ---- R2 / R3 / R4: scenarios through run_action_open
     open_scenarios(run, model)
+    run.rule("C17.R7", "'the indexed note that owns it' is unique per page state: a page the reindex processes has its old rows removed before it is added again (per-page order obligations of C06.R2, adopted) -- "
+             "otherwise a ZID / ID lookup answers with a stale row and opens the page that used to hold the note")
+    from ..indexscen import reindex_rules as _rr
+
+    sub6 = Run("C06", run.tier, run.repo)
+    _rr(sub6, model, dict(order="C06.R2"))
+    run.floor("adopted per-page order obligations", run.adopt(sub6, ("C06.R2",), "C17.R7"), 3)
     run.rule("C17.R6", "the index lookup behind ID / RID / named-URL targets constrains note-link-property-name-value conjunctively (symbolic evaluation of SQLRepo.get_notes_by_id)")
     id_lookup_statement(run, model)
     # stripped punctuation keeps kind prefixes and brackets intact (the word scan with its helpers folded in)
